@@ -711,6 +711,7 @@ type wsess struct {
 	plan    WritePlan
 	off, k  int
 	done    bool
+	twice   bool
 }
 
 func (s *wsess) step() *failure {
@@ -754,6 +755,9 @@ func (s *wsess) close() *failure {
 	if err := s.w.Close(); err != nil {
 		return failf("write/"+s.tag, "stream %d: Close of the writer returned %v", s.idx, err)
 	}
+	if s.twice {
+		s.w.Close()
+	}
 	return nil
 }
 
@@ -767,6 +771,7 @@ type rsess struct {
 	k, zeros int
 	scratch  []byte
 	done     bool
+	twice    bool
 }
 
 func (s *rsess) step() *failure {
@@ -827,6 +832,9 @@ func (s *rsess) close() *failure {
 	if err := s.r.Close(); err != nil {
 		return failf("read/"+s.tag, "stream %d: Close of the reader returned %v", s.idx, err)
 	}
+	if s.twice {
+		s.r.Close()
+	}
 	return nil
 }
 
@@ -841,7 +849,7 @@ func diff(got, want []byte) string {
 // runUse evaluates one use: all streams are open at the same time on the one
 // codec value, their Write (then Read) calls are interleaved round-robin.
 // It returns the compressed streams and the first oracle failure.
-func runUse(c compress.Codec, cs CodecSpec, streams []Stream, useRef bool, ref RefEnc, seedShift uint64) (comps [][]byte, f *failure) {
+func runUse(c compress.Codec, cs CodecSpec, streams []Stream, useRef bool, ref RefEnc, seedShift uint64, closeTwice bool) (comps [][]byte, f *failure) {
 	tag := cs.tag()
 	defer func() {
 		if p := recover(); p != nil {
@@ -867,7 +875,7 @@ func runUse(c compress.Codec, cs CodecSpec, streams []Stream, useRef bool, ref R
 	} else {
 		ws := make([]*wsess, len(streams))
 		for i, st := range streams {
-			s := &wsess{idx: i, tag: tag, payload: payloads[i], plan: st.W}
+			s := &wsess{idx: i, tag: tag, payload: payloads[i], plan: st.W, twice: closeTwice}
 			s.w = c.NewWriter(&s.sink)
 			ws[i] = s
 		}
@@ -897,7 +905,7 @@ func runUse(c compress.Codec, cs CodecSpec, streams []Stream, useRef bool, ref R
 	}
 	rs := make([]*rsess, len(streams))
 	for i, st := range streams {
-		s := &rsess{idx: i, tag: tag, plan: st.R, biglen: len(payloads[i]) + 10}
+		s := &rsess{idx: i, tag: tag, plan: st.R, biglen: len(payloads[i]) + 10, twice: closeTwice}
 		s.out.limit = len(payloads[i]) + 64
 		s.r = c.NewReader(source(st.R.Src, st.R.SrcChunk, comps[i]))
 		rs[i] = s
@@ -1029,19 +1037,31 @@ func drain(r io.Reader, buf int, viaWriteTo bool, limit int) bool {
 	return false
 }
 
-// runHist performs one earlier use.  It returns an oracle failure only for the
-// "ok" step (a complete use, which must itself be correct) and whether a stream
-// of the step really ended in an error.
+// drainDamaged is drain for input that was damaged on purpose: what a decoder
+// does with such input (even a panic) is not C16's business but C20's; only
+// what happens to the next use is.
+func drainDamaged(tag, op string, r io.Reader, buf int, viaWriteTo bool, limit int) (errored bool) {
+	defer func() {
+		if p := recover(); p != nil {
+			ev.Count("panic_on_damaged_input/"+tag+"/"+op, 1)
+			errored = true
+		}
+	}()
+	return drain(r, buf, viaWriteTo, limit)
+}
+
+// runHist performs one earlier use.  It returns an oracle failure for the "ok"
+// step (a complete use, which must itself be correct) and for a panic anywhere
+// but in the reads of damaged input (NewReader/NewWriter, writing to a failing
+// sink, Close and a second Close are all legitimate calls), and whether a
+// stream of the step really ended in an error.
 func runHist(c compress.Codec, cs CodecSpec, h HistStep) (f *failure, errored bool) {
 	defer func() {
 		if p := recover(); p != nil {
 			if s, ok := p.(string); ok && len(s) > 8 && s[:8] == "harness:" {
 				panic(p)
 			}
-			// what a codec does with damaged input is not C16's business (C20);
-			// only what happens to the next use is.
-			ev.Count("history_panic/"+cs.tag()+"/"+h.Op, 1)
-			errored = true
+			f = failf("panic/"+cs.tag()+"/hist-"+h.Op, "panic in a %s step (n=%d close_twice=%v): %v", h.Op, h.N, h.CloseTwice, p)
 		}
 	}()
 	n := h.N
@@ -1063,7 +1083,7 @@ func runHist(c compress.Codec, cs CodecSpec, h HistStep) (f *failure, errored bo
 		for i := range streams {
 			streams[i] = Stream{Payload: h.Payload.shifted(uint64(i)), W: WritePlan{Mode: "write", Chunks: []int{h.Buf}}, R: ReadPlan{Mode: "read", Bufs: []int{h.Buf}}}
 		}
-		_, f := runUse(c, cs, streams, false, RefEnc{}, 0)
+		_, f := runUse(c, cs, streams, false, RefEnc{}, 0, h.CloseTwice)
 		if f != nil {
 			f.sig = "histstep-" + f.sig
 		}
@@ -1083,7 +1103,7 @@ func runHist(c compress.Codec, cs CodecSpec, h HistStep) (f *failure, errored bo
 			rs[i] = c.NewReader(bytes.NewReader(nil))
 		}
 		for _, r := range rs {
-			errored = drain(r, 16, false, 1024) || errored
+			errored = drainDamaged(cs.tag(), h.Op, r, 16, false, 1024) || errored
 			closeR(r)
 		}
 		return nil, errored
@@ -1168,7 +1188,7 @@ func runHist(c compress.Codec, cs CodecSpec, h HistStep) (f *failure, errored bo
 				}
 			}
 		} else {
-			errored = drain(r, h.Buf, h.ViaWriteTo, len(payload)+(1<<20)) || errored
+			errored = drainDamaged(cs.tag(), h.Op, r, h.Buf, h.ViaWriteTo, len(payload)+(1<<20)) || errored
 		}
 	}
 	for i := len(rs) - 1; i >= 0; i-- {
@@ -1443,11 +1463,11 @@ func evaluate(tb ev.TB, kind string, c Case) {
 			return
 		}
 	}
-	comps, f := runUse(codec, c.Codec, c.Streams, c.UseRef, c.Ref, 0)
+	comps, f := runUse(codec, c.Codec, c.Streams, c.UseRef, c.Ref, 0, false)
 	if f != nil {
 		if len(c.History) > 0 {
 			// metamorphic: the same use on a new codec value, no explicit history
-			if _, base := runUse(c.Codec.fresh(), c.Codec, c.Streams, c.UseRef, c.Ref, 0); base == nil {
+			if _, base := runUse(c.Codec.fresh(), c.Codec, c.Streams, c.UseRef, c.Ref, 0, false); base == nil {
 				f.sig = "history/" + f.sig
 				f.msg = "only after the history (the same use passes on a fresh codec value): " + f.msg
 			}
@@ -1456,7 +1476,7 @@ func evaluate(tb ev.TB, kind string, c Case) {
 		return
 	}
 	if kind == "history" && len(c.History) > 0 {
-		bcomps, base := runUse(c.Codec.clean(), c.Codec, c.Streams, c.UseRef, c.Ref, 0)
+		bcomps, base := runUse(c.Codec.clean(), c.Codec, c.Streams, c.UseRef, c.Ref, 0, false)
 		if base != nil {
 			ev.Fail(tb, kind, "baseline/"+base.sig, c, "%s: the use passes after the history but fails on a fresh codec value: %s", c.Codec.tag(), base.msg)
 			return
@@ -1511,7 +1531,7 @@ func evaluateConcurrent(tb ev.TB, kind string, c Case) {
 					}
 				}
 				st := c.Streams[(g+k)%len(c.Streams)]
-				_, f := runUse(codec, c.Codec, []Stream{st}, c.UseRef, c.Ref, uint64(1+g*16+k))
+				_, f := runUse(codec, c.Codec, []Stream{st}, c.UseRef, c.Ref, uint64(1+g*16+k), false)
 				if f != nil {
 					f.msg = fmt.Sprintf("goroutine %d of %d, use %d: %s", g, c.Goroutines, k, f.msg)
 					fails[g] = f
